@@ -473,7 +473,21 @@ def e2e_cases(tier):
 
 # ============================================================================ (H) history independence
 OPS = ["wallSpeedLTE", "solveWall(s1)", "solveWall(s2)", "findMatching(slow)", "findMatching(hybrid)", "fastestDeflag", "slowestDeton",
-       "second-model+particle", "potential-defaultInterpolation", "findvwLTE-after-unconverged", "solveWallDetonation(s1)"]
+       "second-model+particle", "potential-defaultInterpolation", "findvwLTE-after-unconverged", "previous-benchmark-point", "other-grid-size",
+       "solveWallDetonation(s1)"]
+
+
+def _setup_point(m, am, Tn=100.0):
+    """(re-)register a model and run setupThermodynamicsHydrodynamics on an EXISTING manager, the way a user moves on to
+    another benchmark point."""
+    import WallGo
+    from .. import models as MD
+
+    from .. import wg
+
+    m.registerModel(MD.make_model(am))
+    ph = wg.phase_info(am, Tn, "S1", "S0")  # bit-identical inputs to wg.setup_manager
+    m.setupThermodynamicsHydrodynamics(ph, WallGo.VeffDerivativeSettings(temperatureVariationScale=10.0, fieldValueVariationScale=[10.0, 10.0]))
 
 
 def _apply(m, op, am):
@@ -503,6 +517,19 @@ def _apply(m, op, am):
     if op == "findvwLTE-after-unconverged":
         m.hydrodynamics.success = False
         return m.hydrodynamics.findvwLTE()
+    if op == "previous-benchmark-point":
+        # another parameter point of the same model family at the SAME nucleation temperature, solved with the same
+        # settings; then the manager is set up again for the original point
+        _setup_point(m, MD.xsm2(lhs=0.95))
+        v = m.solveWall(wg.solver_settings(thickness=5.0)).wallVelocity
+        _setup_point(m, am)
+        return v
+    if op == "other-grid-size":
+        old = m.config.configGrid.spatialGridSize
+        m.config.configGrid.spatialGridSize = 16
+        v = m.solveWall(wg.solver_settings(thickness=5.0)).wallVelocity
+        m.config.configGrid.spatialGridSize = old
+        return v
     if op == "second-model+particle":
         other = type(m.model)()  # same class => same class-level particle list
         p = WallGo.Particle(name="x", index=0, msqVacuum=lambda f: 0.0 * f.getField(0), msqDerivative=lambda f: 0.0 * f, statistics="Fermion", totalDOFs=12)
@@ -593,9 +620,12 @@ def case_history(c: dict) -> dict:
 def history_cases(tier):
     depth = 2 if tier == "quick" else 3
     ops = OPS if tier == "thorough" else [o for o in OPS if o != "solveWallDetonation(s1)"]
+    heavy = {"previous-benchmark-point", "other-grid-size"}
     hists = []
     for d in range(1, depth + 1):
         for h in itertools.product(ops, repeat=d):
+            if tier == "quick" and d == 2 and (set(h) & heavy) and not ({h[0], h[1]} & {"solveWall(s1)", "wallSpeedLTE", "solveWall(s2)"}):
+                continue  # quick: the two expensive operations are combined only with the solver calls
             if tier == "thorough" and d == 3 and not ({"solveWall(s2)", "second-model+particle", "findvwLTE-after-unconverged", "potential-defaultInterpolation", "fastestDeflag"} & set(h)):
                 continue
             hists.append(list(h))
